@@ -138,6 +138,7 @@ fn nontrivial_enum(e: &EnumDef) -> bool {
 pub struct Values;
 impl Prop for Values {
     type Case = L3Case;
+    crate::prog_shrink!();
     fn name(&self) -> String {
         "C08/values".into()
     }
@@ -175,6 +176,7 @@ pub struct W4Case {
 pub struct Width4;
 impl Prop for Width4 {
     type Case = W4Case;
+    crate::prog_shrink!();
     fn name(&self) -> String {
         "C08/width4".into()
     }
